@@ -5,8 +5,10 @@
      traced_solve_t cfg a reset ev before after d o t s tr   TracerMixin.solve_t(t, **o, trace=a, reset=reset) on an instance
                                                              whose user hooks are ev/before/after, state s, Trace objects tr
      solve_t_M ev before after d o t s                       the same call without the keywords (Solver.v, properties C02/C06)
-     ready cfg a reset t v tr                                 "trace_t(t, ...) cannot fail": names known, t in the span, and the
-                                                             period's Trace empty, or of the same width, or reset=True
+     ready cfg a reset t v tr                                 "trace_t(t, ...) cannot fail": names known, t in the span, and — unless
+                                                             reset=True — the period's Trace is empty, or recorded for other names
+                                                             (then it is started afresh), or has one row per name (width_ok);
+                                                             every well-formed Trace qualifies
      shape_pres h                                             the user hook h keeps the set of series and their lengths
      traced_solve_all / traced_solve_period_all (TracerSolve.v)   SolverMixin.solve(start=, end=, trace=, reset=, ...) /
                                                              solve_period(label, ...) on the tracer-extended instance, for any
@@ -36,11 +38,15 @@
      non-Sequence iterables (set, generator: the defaults, mirrored as TFlag true); names that are container entries but not
      variables ('status', 'iterations', the trace entry: accepted by the code, the snapshot array turns into strings / objects;
      the model answers KeyError).
-   - EVERY theorem about `traces` (a list of Trace VALUES, one per period) presupposes that every period's cell of the object
-     array holds a Trace.  That is so after __init__ (C17_tracer_init), after copy() and for the kept periods after reindex()
-     (C17_copy_..., C17_reindex_gives_...), and trace_t keeps it so (C17_cells_refine_traces: on such an array the reference-level
-     trace_t_cells IS the value-level trace_t).  It is FALSE for the periods that are new after reindex() — they hold None:
-     finding, C17_reindex_new_period_raises — and no C17_trace_... theorem speaks about those. *)
+   - `traces` is a list of Trace VALUES, one per period; the object array of the implementation holds REFERENCES (or None for a
+     period added by reindex()).  C17_cells_refine_traces links the two levels: on every array the class can build (cells None
+     or Trace objects of their own — after __init__, copy(), reindex(): C17_tracer_init, C17_copy_..., C17_reindex_gives_...)
+     the reference-level trace_t_cells IS the value-level trace_t, a None cell reading as the empty Trace (fix 3b0200f).
+   - REPAIRED SINCE ROUND 1 (the refutation theorems are gone, the positive statements stand in their place): finding #16 and the
+     stale-names finding (fix 7d04ae5: C17_trace_noninterference_every_traced_call, C17_retrace_under_other_names_...,
+     C17_trace_names_after_run), Trace.names shared with the model / caller (cfb58ac: C17_trace_names_...), Trace objects shared
+     after reindex (28b2a9a: C17_reindex_gives_every_kept_period_its_own_trace), None cell after reindex (3b0200f:
+     C17_reindex_new_period_gets_a_trace).  No known finding of C17 is left. *)
 From Coq Require Import ZArith List Bool PrimFloat.
 Import ListNotations.
 Require Import PyBase Solver SolverFacts SolverF SolveAll Tracer TracerSolve TracerNames TracerLinked TracerReindex TracerKw TracerFacts TracerFacts2 TracerFacts3 TracerFacts4 TracerFacts5 TracerF TracerExamples.
@@ -67,7 +73,7 @@ Section C17.
     snd (trace_t num cfg t lab a reset v tr) = None <->
     (names_valid num v t (names_of cfg (length v) a) /\
      exists p, py_pos (length tr) t = Some p /\
-               (reset = true \/ width_ok num (nth p tr (empty_trace num)) (length (names_of cfg (length v) a)))).
+               (reset = true \/ width_ok num (nth p tr (empty_trace num)) (names_of cfg (length v) a))).
   Proof. exact (trace_t_ready_iff num zero cfg t lab a reset v tr). Qed.
 
   (* NON-INTERFERENCE, solve_t.  For all user oracles (shape-preserving), options, periods, states, Trace contents and
@@ -90,13 +96,13 @@ Section C17.
     truthy a = true ->
     names_valid num (vals_of s) t (names_of cfg (length (vals_of s)) a) ->
     py_pos (length tr) t = Some p ->
-    reset = true \/ width_ok num (nth p tr (empty_trace num)) (length (names_of cfg (length (vals_of s)) a)) ->
+    reset = true \/ width_ok num (nth p tr (empty_trace num)) (names_of cfg (length (vals_of s)) a) ->
     let R := traced_solve_t cfg a reset ev before after d o t s tr in
     let U := solve_t_M ev before after d o t s in
     (fst (fst R), snd R) = U /\
     shape num (vals_of (fst U)) = shape num (vals_of s) /\
     length (snd (fst R)) = length tr /\
-    (reset = true \/ width_ok num (nth p (snd (fst R)) (empty_trace num)) (length (names_of cfg (length (vals_of s)) a))) /\
+    (reset = true \/ width_ok num (nth p (snd (fst R)) (empty_trace num)) (names_of cfg (length (vals_of s)) a)) /\
     (forall q, q <> p -> nth q (snd (fst R)) (empty_trace num) = nth q tr (empty_trace num)).
   Proof. exact (fun H1 H2 H3 => traced_solve_t_on num sub absf ltb isfin zero cfg a reset ev before after H1 H2 H3 d o t s tr p). Qed.
 
@@ -249,7 +255,7 @@ Section C17.
     truthy a = true ->
     names_valid num (vals_of s) t (names_of cfg (length (vals_of s)) a) ->
     py_pos (length tr) t = Some p -> length tr = length (status s) ->
-    reset = true \/ width_ok num (nth p tr (empty_trace num)) (length (names_of cfg (length (vals_of s)) a)) ->
+    reset = true \/ width_ok num (nth p tr (empty_trace num)) (names_of cfg (length (vals_of s)) a) ->
     traced_solve_t cfg a reset ev before after d o t s tr = ((s', tr'), out) ->
     out = Ret true \/ out = Ret false \/ out = Raise NonConvergenceError ->
     let names := names_of cfg (length (vals_of s)) a in
@@ -273,7 +279,7 @@ Section C17.
     truthy a = true ->
     names_valid num (vals_of s) t (names_of cfg (length (vals_of s)) a) ->
     py_pos (length tr) t = Some p -> length tr = length (status s) ->
-    reset = true \/ width_ok num (nth p tr (empty_trace num)) (length (names_of cfg (length (vals_of s)) a)) ->
+    reset = true \/ width_ok num (nth p tr (empty_trace num)) (names_of cfg (length (vals_of s)) a) ->
     let R := traced_solve_t cfg a reset ev before after d o t s tr in
     exists l, run_index (map fst l) /\
       nth p (snd (fst R)) (empty_trace num)
@@ -303,16 +309,17 @@ Section C17.
     exists lab res, nth p (snd (fst R)) (empty_trace num) = mkTrace (names_of cfg (length (vals_of s)) a) [lab] [res].
   Proof. exact (fun H1 H2 H3 => trace_reset_every_path num sub absf ltb isfin zero cfg a ev before after H1 H2 H3 d o t s tr p). Qed.
 
-  (* REPEATED SOLVES (default reset=False) of a period traced before with as many names: nothing the Trace held is lost
-     and the run's labels start, before, 0, 1..k [, end] and snapshots are appended in order.  The Trace's `names`
-     stay those of the call that created it (see C17_trace_stale_names_refuted below). *)
+  (* REPEATED SOLVES (default reset=False) of a period traced before under THE SAME list of names: nothing the Trace held
+     is lost and the run's labels start, before, 0, 1..k [, end] and snapshots are appended in order.  (Under any other
+     list of names the Trace starts afresh: C17_retrace_under_other_names_solved.) *)
   Theorem C17_trace_accumulates cfg a d o t s (tr : traces num) p s' tr' out :
     shape_pres num ev -> shape_pres num before -> shape_pres num after ->
     truthy a = true ->
     names_valid num (vals_of s) t (names_of cfg (length (vals_of s)) a) ->
     py_pos (length tr) t = Some p -> length tr = length (status s) ->
     is_empty num (nth p tr (empty_trace num)) = false ->
-    width_ok num (nth p tr (empty_trace num)) (length (names_of cfg (length (vals_of s)) a)) ->
+    tr_names (nth p tr (empty_trace num)) = names_of cfg (length (vals_of s)) a ->
+    width_ok num (nth p tr (empty_trace num)) (names_of cfg (length (vals_of s)) a) ->
     traced_solve_t cfg a false ev before after d o t s tr = ((s', tr'), out) ->
     out = Ret true \/ out = Ret false \/ out = Raise NonConvergenceError ->
     let names := names_of cfg (length (vals_of s)) a in
@@ -330,20 +337,83 @@ Section C17.
              ++ (if st_eqb x Solved then [snap num zero (vals_of s') t names] else [])).
   Proof. exact (fun H1 H2 H3 => trace_accumulates num sub absf ltb isfin zero cfg a ev before after H1 H2 H3 d o t s tr p s' tr' out). Qed.
 
-  (* Which names the period's Trace carries after a traced run: those of THIS call iff the Trace was empty or
-     reset=True; otherwise the names of the earlier call are kept. *)
+  (* Which names the period's Trace carries after a traced run: ALWAYS those of this call (fix 7d04ae5; this is the positive
+     statement that replaces the former C17_trace_stale_names_refuted). *)
   Theorem C17_trace_names_after_run cfg a reset d o t s (tr : traces num) p s' tr' out :
     shape_pres num ev -> shape_pres num before -> shape_pres num after ->
     truthy a = true ->
     names_valid num (vals_of s) t (names_of cfg (length (vals_of s)) a) ->
     py_pos (length tr) t = Some p -> length tr = length (status s) ->
-    reset = true \/ width_ok num (nth p tr (empty_trace num)) (length (names_of cfg (length (vals_of s)) a)) ->
+    reset = true \/ width_ok num (nth p tr (empty_trace num)) (names_of cfg (length (vals_of s)) a) ->
     traced_solve_t cfg a reset ev before after d o t s tr = ((s', tr'), out) ->
     out = Ret true \/ out = Ret false \/ out = Raise NonConvergenceError ->
-    tr_names (nth p tr' (empty_trace num))
-    = if is_empty num (nth p tr (empty_trace num)) || reset then names_of cfg (length (vals_of s)) a
-      else tr_names (nth p tr (empty_trace num)).
+    tr_names (nth p tr' (empty_trace num)) = names_of cfg (length (vals_of s)) a.
   Proof. exact (fun H1 H2 H3 => trace_names_after_run num sub absf ltb isfin zero cfg a ev before after H1 H2 H3 reset d o t s tr p s' tr' out). Qed.
+
+  (* NON-INTERFERENCE WITHOUT A WIDTH GUARD (fixes 7d04ae5, cfb58ac; replaces the former C17_trace_width_mismatch_refuted).
+     Every Trace the class builds is well formed — one label per column, one name per row (C17_tracer_init,
+     C17_every_trace_t_keeps_traces_well_formed) — and on a well-formed Trace EVERY traced call with valid names at a period
+     of the span erases to the untraced call: whatever the Trace holds, for whatever names it was recorded, with or
+     without reset. *)
+  Theorem C17_trace_noninterference_every_traced_call cfg a reset d o t s (tr : traces num) p :
+    shape_pres num ev -> shape_pres num before -> shape_pres num after ->
+    names_valid num (vals_of s) t (names_of cfg (length (vals_of s)) a) ->
+    py_pos (length tr) t = Some p ->
+    wf_trace num (nth p tr (empty_trace num)) = true ->
+    let R := traced_solve_t cfg a reset ev before after d o t s tr in
+    (fst (fst R), snd R) = solve_t_M ev before after d o t s.
+  Proof. exact (fun H1 H2 H3 => trace_noninterference_wf num sub absf ltb isfin zero cfg a ev before after H1 H2 H3 reset d o t s tr p). Qed.
+
+  (* ... `ready` (the exact condition under which trace_t cannot fail) holds on every well-formed Trace *)
+  Theorem C17_well_formed_traces_accept_any_names (x : trace num) names : wf_trace num x = true -> width_ok num x names.
+  Proof. exact (wf_width_ok num x names). Qed.
+
+  (* A PERIOD TRACED AGAIN UNDER OTHER NAMES STARTS AFRESH (replaces the former refutations of finding #16 and of the
+     stale-names finding).  Default reset=False; the period's Trace is empty OR was recorded for another list of names (of
+     any number); the period is solved: afterwards its Trace is exactly the trace of a FIRST solve under the names traced
+     now — labels start, before, 0, 1..k, end; snapshot j = those variables after pass j; last = the stored solution —
+     with nothing of the old recording mixed in.  (afresh x false names = is_empty x || names differ.) *)
+  Theorem C17_retrace_under_other_names_solved cfg a d o t s (tr : traces num) p s' tr' :
+    shape_pres num ev -> shape_pres num before -> shape_pres num after ->
+    truthy a = true ->
+    names_valid num (vals_of s) t (names_of cfg (length (vals_of s)) a) ->
+    py_pos (length tr) t = Some p -> length tr = length (status s) ->
+    afresh num (nth p tr (empty_trace num)) false (names_of cfg (length (vals_of s)) a) = true ->
+    traced_solve_t cfg a false ev before after d o t s tr = ((s', tr'), Ret true) ->
+    let names := names_of cfg (length (vals_of s)) a in
+    let v0 := seeded num zero d o s p in
+    let v1 := fst (before t (errors o) (catch_first o) 0%nat v0) in
+    exists k, (1 <= k)%nat /\
+      status s' = upd p Solved (status s) /\ iters s' = upd p (Z.of_nat k) (iters s) /\
+      nth p tr' (empty_trace num)
+      = mkTrace names
+          (LStart :: LBefore :: map LIter (seq 0 (S k)) ++ [LEnd])
+          (snap num zero (vals_of s) t names :: snap num zero v0 t names
+           :: map (fun j => snap num zero (st_after num ev o t v1 j) t names) (seq 0 (S k))
+           ++ [snap num zero (vals_of s') t names]).
+  Proof. exact (fun H1 H2 H3 => trace_shape_solved_afresh num sub absf ltb isfin zero cfg a ev before after H1 H2 H3 d o t s tr p s' tr'). Qed.
+
+  Theorem C17_retrace_under_other_names_unsolved cfg a d o t s (tr : traces num) p s' tr' out :
+    shape_pres num ev -> shape_pres num before -> shape_pres num after ->
+    truthy a = true ->
+    names_valid num (vals_of s) t (names_of cfg (length (vals_of s)) a) ->
+    py_pos (length tr) t = Some p -> length tr = length (status s) ->
+    afresh num (nth p tr (empty_trace num)) false (names_of cfg (length (vals_of s)) a) = true ->
+    traced_solve_t cfg a false ev before after d o t s tr = ((s', tr'), out) ->
+    out = Ret false \/ out = Raise NonConvergenceError ->
+    let names := names_of cfg (length (vals_of s)) a in
+    let v0 := seeded num zero d o s p in
+    let v1 := fst (before t (errors o) (catch_first o) 0%nat v0) in
+    exists k x, x <> Solved /\
+      status s' = upd p x (status s) /\ iters s' = upd p (Z.of_nat k) (iters s) /\
+      vals_of s' = st_after num ev o t v1 k /\
+      nth p tr' (empty_trace num)
+      = mkTrace names
+          (LStart :: LBefore :: map LIter (seq 0 (S k)))
+          (snap num zero (vals_of s) t names :: snap num zero v0 t names
+           :: map (fun j => snap num zero (st_after num ev o t v1 j) t names) (seq 0 (S k))).
+  Proof. exact (fun H1 H2 H3 => trace_shape_unsolved_afresh num sub absf ltb isfin zero cfg a ev before after H1 H2 H3 d o t s tr p s' tr' out). Qed.
+
   (* THE SECOND SENTENCE FOR solve(): after the WHOLE multi-period solve(trace=..., reset=False), a period with an empty
      Trace that is visited once and SOLVED holds the labels start, before, 0, 1..k, end (k = its iteration count >= 1),
      snapshot j = the traced variables after its pass j, the last snapshot = the solution stored when it finished.
@@ -403,18 +473,19 @@ Section C17.
     names_valid num (vals_of s) t (names_of cfg (length (vals_of s)) a) ->
     py_pos (length tr) t = Some p -> length tr = length (status s) ->
     wf_trace num (nth p tr (empty_trace num)) = true ->
-    reset = true \/ width_ok num (nth p tr (empty_trace num)) (length (names_of cfg (length (vals_of s)) a)) ->
     traced_solve_t cfg a reset ev before after d o t s tr = ((s', tr'), out) ->
     out = Ret true \/ out = Ret false \/ out = Raise NonConvergenceError ->
     let X := nth p tr' (empty_trace num) in
     to_dataframe num X = Ret (tr_index X, tr_names X, tr_values X) /\ tr_values X <> [].
   Proof. exact (fun H1 H2 H3 => to_dataframe_after_run num sub absf ltb isfin zero cfg a reset ev before after H1 H2 H3 d o t s tr p s' tr' out). Qed.
 
-  (* a successful trace_t (solve-internal or called directly) keeps a Trace well formed *)
-  Theorem C17_trace_t_keeps_traces_well_formed names reset (old : trace num) lab res :
-    wf_trace num old = true -> reset = true \/ width_ok num old (length names) -> length res = length names ->
+  (* EVERY trace_t (solve-internal or called directly) keeps a Trace well formed: it either starts it afresh or — same
+     names, hence the same number of rows — extends it by one column.  No width guard (fix 7d04ae5). *)
+  Theorem C17_every_trace_t_keeps_traces_well_formed names reset (old : trace num) lab res :
+    wf_trace num old = true -> length res = length names ->
     wf_trace num (push num names reset old lab res) = true.
   Proof. exact (push_wf num names reset old lab res). Qed.
+
   (* A TRACED MODEL AS A SUBMODEL OF A LINKER.  BaseLinker reaches a submodel only through `_evaluate(t, iteration=k, **kwargs)`,
      once per linker pass (TracerLinked.v).  For passes k, k+1, .., k+n-1 over a tracer-extended submodel at a period where
      trace_t cannot fail: erasing the Trace objects gives the passes over the plain submodel (values, the exception that
@@ -425,7 +496,7 @@ Section C17.
     shape_pres num ev -> truthy a = true ->
     names_valid num v t (names_of cfg (length v) a) ->
     py_pos (length tr) t = Some p ->
-    reset = true \/ width_ok num (nth p tr (empty_trace num)) (length (names_of cfg (length v) a)) ->
+    reset = true \/ width_ok num (nth p tr (empty_trace num)) (names_of cfg (length v) a) ->
     let R := linked_passes num cfg a reset ev t em cf k n v tr in
     (fst (fst R), snd R) = plain_passes num ev t em cf k n v /\
     shape num (fst (fst R)) = shape num v /\
@@ -471,40 +542,11 @@ Theorem C17_forgetting_kwargs_is_noticed :
   /\ snd (tx_K forward forward_without_kwargs forward [(7%nat, 1)] u_tagged) = Raise (SolutionError (Some 12)).
 Proof. exact forgetting_kwargs_is_noticed. Qed.
 
-(* FINDING #16 (still present).  Without the width guard non-interference is false: valid names, t in the span,
-   default reset=False, and the traced call raises ValueError (nothing solved) where the same call without `trace=`
-   solves the period.  Witness: solve_t(1, trace='V0') then solve_t(1, trace=['V0','V1']). *)
-Theorem C17_trace_width_mismatch_refuted :
-  exists (sc : scripts) (cfg : tcfg) (d : mdesc) (o : fopts) (t : Z) (s : fstate) (tr : ftraces) (a : targ),
-    truthy a = true /\
-    names_valid float (vals_of s) t (names_of cfg (length (vals_of s)) a) /\
-    py_pos (length tr) t <> None /\
-    snd (f_solve_t sc d o t s) = Ret true /\
-    snd (f_traced_solve_t sc cfg a false d o t s tr) = Raise ValueError /\
-    fst (fst (f_traced_solve_t sc cfg a false d o t s tr)) = s.
-Proof. exact trace_width_mismatch_refuted. Qed.
-
-(* FINDING #16, second consequence: the failed append leaves a label without a column in the period's Trace, so from
-   then on Trace.to_dataframe() of that period raises ValueError although it worked before the call. *)
-Theorem C17_to_dataframe_after_width_mismatch_refuted :
-  exists (sc : scripts) (cfg : tcfg) (d : mdesc) (o : fopts) (t : Z) (s : fstate) (tr : ftraces) (a : targ) (p : nat),
-    truthy a = true /\ py_pos (length tr) t = Some p /\
-    (exists f, to_dataframe float (nth p tr (empty_trace float)) = Ret f) /\
-    to_dataframe float (nth p (snd (fst (f_traced_solve_t sc cfg a false d o t s tr))) (empty_trace float)) = Raise ValueError.
-Proof. exact to_dataframe_after_width_mismatch_refuted. Qed.
-
-(* NEW FINDING (same root as #16).  "Records it faithfully" fails for a repeated traced solve with ANOTHER name list of
-   the same length (default reset=False): the call succeeds, but the Trace keeps the names of the first call while
-   the appended snapshots hold the values of the variables named NOW — V1's values filed under the column V0. *)
-Theorem C17_trace_stale_names_refuted :
-  exists (sc : scripts) (cfg : tcfg) (d : mdesc) (o : fopts) (t : Z) (s : fstate) (tr : ftraces) (a : targ) (p : nat),
-    truthy a = true /\ ready float cfg a false t (vals_of s) tr /\ py_pos (length tr) t = Some p /\
-    let R := f_traced_solve_t sc cfg a false d o t s tr in
-    snd R = Ret true /\
-    tr_names (nth p (snd (fst R)) (empty_trace float)) <> names_of cfg (length (vals_of s)) a /\
-    last (tr_values (nth p (snd (fst R)) (empty_trace float))) []
-    = snap float fzero (vals_of (fst (fst R))) t (names_of cfg (length (vals_of s)) a).
-Proof. exact trace_stale_names_refuted. Qed.
+(* what fix 7d04ae5 removed: before it trace_t appended to ANY non-empty Trace unless reset=True, and appending a snapshot
+   of another width fails in np.hstack (ValueError, the label already recorded): the former finding #16 *)
+Theorem C17_append_to_a_trace_of_other_width_fails :
+  snd (append_trace float (nth 1 tx_tr1 (empty_trace float)) LStart [1.5%float; 7%float]) = Some ValueError.
+Proof. exact tx_append_to_other_width_fails. Qed.
 
 (* reindex() AND copy() OF A TRACED INSTANCE (TracerReindex.v: the cells of the object array `_trace` hold references).
    Since fix 28b2a9a reindex() deep-copies the cells of the periods both spans have (the finding "Trace objects shared with
@@ -525,21 +567,27 @@ Theorem C17_reindex_gives_every_kept_period_its_own_trace (num : Type) positions
              end).
 Proof. exact (reindex_cells_fresh num positions cells h). Qed.
 
-(* FINDING (still present): a period that is new after reindex holds None, so EVERY trace_t on it — hence every traced
-   solve of it — raises AttributeError and changes nothing, whatever names / label / values / reset (the untraced solve is
-   unaffected). *)
-Theorem C17_reindex_new_period_raises (num : Type) positions cells i names reset lab res (h : theap num) :
+(* since fix 3b0200f (replaces the former C17_reindex_new_period_raises): the first trace_t on a period that is new after
+   reindex — its cell holds None — puts a fresh Trace with this snapshot into the cell, whatever names / label / values /
+   reset, and touches nothing else; before the fix it raised AttributeError and changed nothing. *)
+Theorem C17_reindex_new_period_gets_a_trace (num : Type) positions cells i names reset lab res (h : theap num) :
   nth i positions None = None ->
   let '(cs, h') := reindex_cells num positions cells h in
-  trace_t_cells num names reset i lab res cs h' = ((cs, h'), Some AttributeError).
-Proof. exact (reindex_new_period_raises num positions cells i names reset lab res h). Qed.
+  trace_t_cells num names reset i lab res cs h' = ((upd i (Some (length h')) cs, h' ++ [mkTrace names [lab] [res]]), None).
+Proof. exact (reindex_new_period_gets_a_trace num positions cells i names reset lab res h). Qed.
+
+Theorem C17_reindex_new_period_raised_before_the_fix (num : Type) positions cells i names reset lab res (h : theap num) :
+  nth i positions None = None ->
+  let '(cs, h') := reindex_cells num positions cells h in
+  trace_t_cells_none_raises num names reset i lab res cs h' = ((cs, h'), Some AttributeError).
+Proof. exact (reindex_new_period_raised_before_the_fix num positions cells i names reset lab res h). Qed.
 
 (* what fix 28b2a9a removed (the reverse patch, reindex_cells_shared): the cell of a kept period was the original's
    reference, and a traced solve through the reindexed instance (non-empty Trace, same width, reset=False) appended in
    place — the ORIGINAL instance's Trace of that period changed *)
 Theorem C17_reindex_without_the_deepcopy_shared (num : Type) positions cells i q r names lab res (h : theap num) c cs :
   nth i positions None = Some q -> nth q cells None = Some r -> (r < length h)%nat ->
-  tr_values (tderef num h r) = c :: cs -> length c = length res ->
+  tr_values (tderef num h r) = c :: cs -> length c = length res -> tr_names (tderef num h r) = names ->
   let old := tderef num h r in
   let '((cells', h'), e) := trace_t_cells num names false i lab res (reindex_cells_shared positions cells) h in
   e = None /\ cells' = reindex_cells_shared positions cells /\
@@ -547,31 +595,31 @@ Theorem C17_reindex_without_the_deepcopy_shared (num : Type) positions cells i q
   tderef num h' r <> old.
 Proof. exact (reindex_without_deepcopy_shared num positions cells i q r names lab res h c cs). Qed.
 
-(* THE STANDING ASSUMPTION OF EVERY THEOREM ABOUT `traces`, made explicit.  When every cell of the object array holds a
-   Trace object of its own (no None, no two periods sharing an object), the reference-level trace_t_cells seen at the level
-   of values IS Tracer.trace_t (its part after the values are gathered and the period located: trace_t_core), and the new
-   array again has a Trace of its own in every cell.  For a period whose cell is None (new after reindex) no such link
-   exists: C17_reindex_new_period_raises. *)
+(* THE LINK BETWEEN THE REFERENCE LEVEL AND THE VALUE LEVEL.  On an array whose cells are None (a period added by reindex(),
+   not traced yet) or Trace objects of their own (no two periods sharing one) the reference-level trace_t_cells, seen at the
+   level of values — a None cell reads as the empty Trace — IS Tracer.trace_t (its part after the values are gathered and
+   the period located: trace_t_core), and the new array is again of that kind.  Such arrays are what __init__, copy() and
+   reindex() produce, so the theorems stated over `traces` speak about every instance the class can build. *)
 Theorem C17_trace_t_is_its_core (num : Type) cfg t lab a reset (v : vals num) (tr : traces num) res p :
   gather num v t (names_of cfg (length v) a) = inl res -> py_pos (length tr) t = Some p ->
   trace_t num cfg t lab a reset v tr = trace_t_core num (names_of cfg (length v) a) reset p lab res tr.
 Proof. exact (trace_t_is_core num cfg t lab a reset v tr res p). Qed.
 
 Theorem C17_cells_refine_traces (num : Type) names reset p lab res cells (h : theap num) :
-  (forall i, (i < length cells)%nat -> exists r, nth i cells None = Some r /\ (r < length h)%nat) ->
+  (forall i r, nth i cells None = Some r -> (r < length h)%nat) ->
   (forall i j r, nth i cells None = Some r -> nth j cells None = Some r -> i = j) ->
   (p < length cells)%nat ->
   let '((cells', h'), e) := trace_t_cells num names reset p lab res cells h in
   (view num cells' h', e) = trace_t_core num names reset p lab res (view num cells h)
-  /\ (forall i, (i < length cells')%nat -> exists r, nth i cells' None = Some r /\ (r < length h')%nat)
+  /\ (forall i r, nth i cells' None = Some r -> (r < length h')%nat)
   /\ (forall i j r, nth i cells' None = Some r -> nth j cells' None = Some r -> i = j)
   /\ length cells' = length cells.
 Proof. exact (cells_refine_traces num names reset p lab res cells h). Qed.
 
-(* through a cell whose Trace is still empty, or with reset=True, trace_t puts a NEW Trace into the cell and writes into
-   no existing object *)
+(* through a cell whose Trace is empty, or was recorded for other names, or with reset=True, trace_t puts a NEW Trace into
+   the cell and writes into no existing object *)
 Theorem C17_trace_t_makes_a_fresh_object_when_empty_or_reset (num : Type) names reset p lab res cells (h : theap num) r :
-  nth p cells None = Some r -> is_empty num (tderef num h r) || reset = true ->
+  nth p cells None = Some r -> afresh num (tderef num h r) reset names = true ->
   let '((cells', h'), e) := trace_t_cells num names reset p lab res cells h in
   cells' = upd p (Some (length h)) cells /\ (forall a, (a < length h)%nat -> tderef num h' a = tderef num h a).
 Proof. exact (trace_t_cells_fresh_object num names reset p lab res cells h r). Qed.
@@ -674,11 +722,13 @@ Print Assumptions C17_trace_reset_every_path.
 Print Assumptions C17_trace_accumulates.
 Print Assumptions C17_trace_names_after_run.
 Print Assumptions C17_to_dataframe_after_run.
-Print Assumptions C17_trace_t_keeps_traces_well_formed.
-Print Assumptions C17_to_dataframe_after_width_mismatch_refuted.
+Print Assumptions C17_every_trace_t_keeps_traces_well_formed.
+Print Assumptions C17_trace_noninterference_every_traced_call.
+Print Assumptions C17_well_formed_traces_accept_any_names.
+Print Assumptions C17_retrace_under_other_names_solved.
+Print Assumptions C17_retrace_under_other_names_unsolved.
 Print Assumptions C17_solve_trace_shape_solved.
 Print Assumptions C17_solve_trace_shape_unsolved.
-Print Assumptions C17_trace_stale_names_refuted.
 Print Assumptions C17_traced_solve_t_start_fails.
 Print Assumptions C17_trace_shape_solved.
 Print Assumptions C17_trace_shape_unsolved.
@@ -689,11 +739,12 @@ Print Assumptions C17_noninterference_with_keywords.
 Print Assumptions C17_wrappers_forward_every_keyword.
 Print Assumptions C17_forgetting_iteration_is_noticed.
 Print Assumptions C17_forgetting_kwargs_is_noticed.
-Print Assumptions C17_trace_width_mismatch_refuted.
+Print Assumptions C17_append_to_a_trace_of_other_width_fails.
 Print Assumptions C17_linked_submodel_passes.
 Print Assumptions C17_linked_submodel_labels.
 Print Assumptions C17_reindex_gives_every_kept_period_its_own_trace.
-Print Assumptions C17_reindex_new_period_raises.
+Print Assumptions C17_reindex_new_period_gets_a_trace.
+Print Assumptions C17_reindex_new_period_raised_before_the_fix.
 Print Assumptions C17_reindex_without_the_deepcopy_shared.
 Print Assumptions C17_trace_t_is_its_core.
 Print Assumptions C17_cells_refine_traces.
